@@ -230,6 +230,24 @@ func TestC06(t *testing.T) {
 				if rv := reflect.ValueOf(v); rv.Kind() == reflect.Slice {
 					conts = append(conts, v)
 				}
+			case k == 6 && rapid.IntRange(0, 3).Draw(rt, "manyContainers") == 0:
+				// one message with more than a thousand lists / maps / objects: the tables of a long-lived stream
+				cnt := rapid.SampledFrom([]int{300, 1030, 1100, 2100}).Draw(rt, "containers")
+				l := make([]interface{}, cnt)
+				for j := range l {
+					switch j % 3 {
+					case 0:
+						l[j] = []interface{}{int32(j)}
+					case 1:
+						l[j] = map[interface{}]interface{}{"k": int32(j)}
+					default:
+						l[j] = &zoo.K00{A: int32(j)}
+					}
+				}
+				vals = append(vals, l)
+				kinds = append(kinds, fmt.Sprintf("message-of-%d-containers", cnt+1))
+				ptrs = append(ptrs, l[2])
+				classes = append(classes, reflect.TypeOf(zoo.K00{}))
 			case k == 2:
 				vals = append(vals, rapid.SampledFrom([]interface{}{nil, "", time.Time{}, map[string]int32{}, (*zoo.Inner)(nil)}).Draw(rt, "nullish"))
 				kinds = append(kinds, "null-rendered")
@@ -351,6 +369,9 @@ func TestC06(t *testing.T) {
 			r.Label("reuses-class-or-ref")
 		}
 		for i, k := range kinds {
+			if strings.HasPrefix(k, "message-of-") && i < len(kinds)-1 {
+				r.Label("message of hundreds or thousands of containers followed by further values")
+			}
 			if strings.HasPrefix(k, "long-typed-list") && i < len(kinds)-1 {
 				r.Label("typed list of more than 64 elements followed by further values")
 				break
